@@ -34,8 +34,9 @@ class LogRegs(Registers):
         super().set(reg, value)
 
 
-def make_emu(case, temps=None, log=True):
-    mem = FlatMem({int(k): v for k, v in case.get("mem", {}).items()}, log=log)
+def make_emu(case, temps=None, log=True, fill=None):
+    mem = FlatMem({int(k): v for k, v in case.get("mem", {}).items()}, log=log,
+                  **({"fill": fill} if fill is not None else {}))
     mem.load_bytes(case["addr"], bytes.fromhex(case["bytes"]))
     emu = Emulator(mem, reset_on_init=False)
     regs = LogRegs()
